@@ -78,3 +78,11 @@ Proof.
   unfold wf_tstacksecret, wf_tsecret. cbn [length hd fst snd].
   repeat split; try (vm_compute; lia); try reflexivity; repeat constructor; cbn; try lia; repeat constructor; try (vm_compute; lia).
 Qed.
+
+(* TMCG_PublicKey text pub|name|email|type|m|y|nizk|sig: round trip for every key whose four string fields contain no '|'
+   (sig is the unparsed remainder and may contain anything); the guard is necessary (pubkey_bar_in_name_refuted) *)
+Theorem C11_public_key_roundtrip : forall k, wf_pubkey k -> import_pubkey (export_pubkey k) = Some k.
+Proof. exact pubkey_roundtrip. Qed.
+Print Assumptions C11_public_key_roundtrip.
+Example C11_nonvacuous_pubkey : wf_pubkey {| pk_name := [65; 108]%N; pk_email := [97; 64; 98]%N; pk_type := [84]%N; pk_m := 35%Z; pk_y := 6%Z; pk_nizk := [110; 94]%N; pk_sig := [115; 124; 94]%N |}.
+Proof. unfold wf_pubkey, nobar. cbn. repeat split; repeat constructor; discriminate. Qed.
